@@ -295,7 +295,7 @@ func ruleLimitOverflowBit(w *World, r *RuleResult) {
 			// only paths on which SystemOverflow(res) was found true
 			sysOver := false
 			for _, d := range p.Decisions {
-				if c, isC := d.Cond.(*ssa.Call); isC && d.Val && w.calleeName(c) == "(Condition).SystemOverflow" {
+				if _, bits, tms, ok := w.systemTest(d.Cond); ok && d.Val == tms && bits == 1 {
 					sysOver = true
 				}
 			}
@@ -418,7 +418,7 @@ func ruleClampToContextLimit(w *World, r *RuleResult) {
 			// upper side only: under a SystemOverflow test or a > MaxExponent comparison
 			upper := false
 			for _, g := range guardsAt(b) {
-				if c, isC := g.Cond.(*ssa.Call); isC && g.Val && w.calleeName(c) == "(Condition).SystemOverflow" {
+				if _, bits, tms, ok := w.systemTest(g.Cond); ok && g.Val == tms && bits == 1 {
 					upper = true
 				}
 				if bo, ok := g.Cond.(*ssa.BinOp); ok && g.Val && bo.Op == token.GTR && strings.Contains(w.exprOf(f, bo.Y).String(), "MaxExponent") {
@@ -496,11 +496,11 @@ func ruleFoldOnlyLetters(w *World, r *RuleResult) {
 						if oi == 1 {
 							tested = gb.X
 						}
-						same := tested == bo.X
+						same := sameElemLoad(f, tested, bo.X)
 						if dg.Via != nil {
 							same = false
 							for pi, q := range dg.Fn.Params {
-								if ssa.Value(q) == tested && pi < len(dg.Via.Common().Args) && dg.Via.Common().Args[pi] == bo.X {
+								if ssa.Value(q) == tested && pi < len(dg.Via.Common().Args) && sameElemLoad(f, dg.Via.Common().Args[pi], bo.X) {
 									same = true
 								}
 							}
@@ -755,4 +755,34 @@ func ruleRangeAfterRounding(w *World, r *RuleResult) {
 			r.ok(key, w.pos(f.Pos()), "the destination's range is checked by (or after) its rounding only", true)
 		}
 	}
+}
+
+// sameElemLoad: a and b are the same value, or two loads of the same element (same slice value, same index
+// value — go/ssa does not merge them) with no store into that slice that could fall between them: every
+// store through the slice is dominated by the second load.
+func sameElemLoad(f *ssa.Function, a, b ssa.Value) bool {
+	if a == b {
+		return true
+	}
+	la, ok1 := a.(*ssa.UnOp)
+	lb, ok2 := b.(*ssa.UnOp)
+	if !ok1 || !ok2 || la.Op != token.MUL || lb.Op != token.MUL {
+		return false
+	}
+	ia, ok1 := la.X.(*ssa.IndexAddr)
+	ib, ok2 := lb.X.(*ssa.IndexAddr)
+	if !ok1 || !ok2 || ia.X != ib.X || ia.Index != ib.Index {
+		return false
+	}
+	if !instrDominates(la, lb) {
+		return false
+	}
+	for _, st := range storesIn(f) {
+		if sa, isIA := st.Addr.(*ssa.IndexAddr); isIA && sa.X == ia.X {
+			if !instrDominates(lb, st) {
+				return false
+			}
+		}
+	}
+	return true
 }
